@@ -39,7 +39,7 @@ structure Rec where
   pwm : Q
   current : Option Q
   locked : Bool
-  deriving Repr, Inhabited
+  deriving Repr, Inhabited, DecidableEq
 
 /-- what a control rule set can observe when it is applied at an instant -/
 structure CtlIn where
@@ -79,7 +79,7 @@ structure St where
   mtorque : Option Q       -- motor.torque attribute (`None` on fresh objects)
   pwm : Q                  -- motor.pwm attribute
   locked : Bool            -- Solver.__powertrain_is_locked
-  deriving Repr, Inhabited
+  deriving Repr, Inhabited, DecidableEq
 
 /-- values of all elements from the last one, going upstream: v_{i-1} = r_i * v_i -/
 def upstream : List Q → Q → List Q
